@@ -279,6 +279,10 @@ class Documentable:
         del old_parent.contents[old_name]
         old_parent._localNameToFullName_map[old_name] = self.fullName()
         new_parent.contents[new_name] = self
+        if self.fullName() in self.system.allobjects:
+            # The new parent already defines that name: 
+            # the moved object supersedes it, like a later definition would.
+            self.system.handleDuplicate(self)
         for o in below:
             self.system.allobjects[o.fullName()] = o
     
